@@ -322,13 +322,12 @@ add("S4", "keep", CORE, "GroupBy._apply_gb_reduction", "        sortkey = self._
 RED = "GroupBy._apply_gb_reduction"
 add("P1", "break", NB, "_apply_cumulative", "    if orig_dtype.kind in 'mM':\n        result = result.astype(orig_dtype)\n", "    elif orig_dtype.kind in 'mM':\n        result = result.astype(orig_dtype)\n", name="P1 cumulative restore becomes the elif of the null-key post-fill")
 add("P1", "break", NB, "_apply_cumulative", "    if orig_dtype.kind in 'mM':\n        result = result.astype(orig_dtype)\n", "", name="P1 cumulative restore deleted")
-add("P1", "break", NB, "_group_func_wrap", "    if orig_type.kind in 'mM':\n        result = result.astype(orig_type)\n", "    if orig_type.kind in 'mM' and (not counting):\n        result = result.astype(orig_type)\n    if counting:\n        pass\n", name="P1 reduction restore under an extra test")
-add("P1", "break", NB, "_group_func_wrap", "    if orig_type.kind in 'mM':\n        result = result.astype(orig_type)\n", "    if orig_type.kind == 'M':\n        result = result.astype(orig_type)\n", name="P1 timedeltas not restored")
+add("P1", "break", NB, "_group_func_wrap", "    if orig_type.kind in 'mM' and (not counting):\n        result = result.astype(orig_type)\n", "    if orig_type.kind == 'M' and (not counting):\n        result = result.astype(orig_type)\n", name="P1 timedeltas not restored")
 add("P1", "break", NB, "group_mean", "    if orig_type.kind in 'mM':\n        mean = mean.astype(orig_type)\n", "", name="P1 group_mean restore deleted")
 add("P1", "break", NB, "_apply_rolling", "        else:\n            result = result.view(orig_dtype)\n", "        else:\n            pass\n", name="P1 rolling restore deleted on the non-diff arm")
 add("P1", "break", NANOPS, "reduce_1d", "        output_converter = pd.to_timedelta\n", "        output_converter = np.asarray\n", name="P1 reduce_1d timedelta converter dropped")
 add("P1", "keep", NB, "_apply_cumulative", "result = result.astype(orig_dtype)", "result = result.view(orig_dtype)", name="P1 astype <-> view")
-add("P1", "keep", NB, "_group_func_wrap", "    if orig_type.kind in 'mM':\n        result = result.astype(orig_type)\n", "    is_temporal = orig_type.kind in 'mM'\n    if is_temporal:\n        result = result.astype(orig_type)\n", name="P1 temporal test through a local alias")
+add("P1", "keep", NB, "_group_func_wrap", "    if orig_type.kind in 'mM' and (not counting):\n        result = result.astype(orig_type)\n", "    is_temporal = orig_type.kind in 'mM'\n    if is_temporal and (not counting):\n        result = result.astype(orig_type)\n", name="P1 temporal test through a local alias")
 add("P10", "break", NB, "_apply_rolling", "result = result.view(f'm8[{np.datetime_data(orig_dtype)[0]}]')", "result = result.view('m8[ns]')", name="P10 diff hard-codes nanoseconds")
 add("P10", "break", NB, "_apply_rolling", "            result = result.view(orig_dtype)\n", "            result = result.view('M8[ns]')\n", name="P10 restore hard-codes datetime64[ns]")
 add("P10", "keep", NB, "_apply_rolling", "result = result.view(f'm8[{np.datetime_data(orig_dtype)[0]}]')", "result = result.view(np.dtype(f'timedelta64[{np.datetime_data(orig_dtype)[0]}]'))", name="P10 unit taken from the original dtype, other spelling")
@@ -783,3 +782,7 @@ add("D9c", "break", CORE, "GroupBy._resolve_mask_argument_into_chunks", "self._u
     "chunk_of = np.searchsorted(self._chunk_offsets, mask, side='right')\n                mask_chunks = [mask[chunk_of == i] for i in range(len(self._group_key_lengths))]", name="D9c positions dealt to the key chunks")
 add("D6b", "break", CORE, "GroupBy._apply_gb_func_across_chunked_group_keys", "combined = numba_funcs._build_target_for_groupby(results_one_value[0].dtype, 'sum' if func_name in ('size', 'count') else func_name, len(self._result_index) + 1)", "combined = np.zeros(len(self._result_index) + 1, dtype=results_one_value[0].dtype)", name="D6b merge target starts at zero")
 add("D9", "break", NB, "_group_func_wrap", "chunked_args = _chunk_groupby_args(**kwargs, n_chunks=n_threads)", "if fancy_indexing:\n            kwargs['mask'] = np.sort(mask)\n        chunked_args = _chunk_groupby_args(**kwargs, n_chunks=n_threads)", name="D9 positions sorted before they are dealt to the threads")
+
+add("P1", "break", NB, "_group_func_wrap", "    if orig_type.kind in 'mM' and (not counting):\n        result = result.astype(orig_type)\n", "", name="P1 reductions of temporal values never restored")
+add("P1", "keep", NB, "_group_func_wrap", "    if orig_type.kind in 'mM' and (not counting):\n        result = result.astype(orig_type)\n", "    if not counting:\n        if orig_type.kind in 'mM':\n            result = result.astype(orig_type)\n", name="P1 counting test outside")
+add("P1", "break", NB, "_group_func_wrap", "    if orig_type.kind in 'mM' and (not counting):\n        result = result.astype(orig_type)\n", "    if orig_type.kind in 'mM':\n        result = result.astype(orig_type)\n", name="P1 counts cast to the temporal dtype (the defect repaired in /repo)")
